@@ -540,6 +540,9 @@ def run(ctx):
     # two saves write the same content only if saving never re-reads a part that is already in memory (rule shared with C03)
     from .c03 import r03a
     r03a(ctx)
+    # serialised bytes remembered on the part are what the next save writes, whatever was edited since (memo rule shared with C14)
+    from .c14 import r14i
+    r14i(ctx)
 
 
 from ..selftest import Seed, unparse_seed  # noqa: E402
